@@ -1500,6 +1500,8 @@ func main() {
 		switch {
 		case i%8 == 7:
 			winCase(h, r)
+		case i%8 == 5:
+			extCase(h, r, metric)
 		case i%4 == 2:
 			numericCase(h, r, metric)
 		default:
